@@ -132,3 +132,58 @@ Example f_amr_periodic_child_fixed :
             ar_cell r = Some near_child /\ ar_pos r = mkV 0.25 0.25 0.25 /\ ar_vis r = [(right_block, 0.5); (near_child, 0.25)] /\
             f_box_of ag_two near_child = mkTB (mkV 0 0 0) (mkV 0.5 0.5 0.5).
 Proof. vm_compute. eexists. repeat split; reflexivity. Qed.
+
+(* ---- no termination bound exists with periodic boundaries: a photon in a periodic box of zero opacity goes round
+   for ever (one cell, periodic in x, density 0): the loop does not end for ANY amount of fuel, as in the real code *)
+Definition cg_ring : cgrid float := f_make_cgrid (mkV 0 0 0) (mkV 1 1 1) (mkI 1 1 1) (mkBV true false false).
+Definition vacuum_cell : cellc float := mkC 0 1 0.
+Definition ring_state (vis : list (Z * float)) (k : Z) : cstate float :=
+  mkCS (mkV 1 0.5 0.5) (mkI 1 0 0) 1 vis (Some 0%Z) k.
+
+Lemma cmarch_S g d invd od f (st : cstate float) :
+  cmarch FOps g d invd od (S f) st =
+  let '(ins, i, p) := cwrap FOps g (cs_idx st) (cs_pos st) in
+  let st1 := mkCS p i (cs_tau st) (cs_vis st) (cs_last st) (cs_ncell st) in
+  if ins && o_ltb FOps (o_zero FOps) (cs_tau st) then cmarch FOps g d invd od f (cbody FOps g d invd od st1) else Some (st1, ins).
+Proof. reflexivity. Qed.
+
+Lemma cart_ring_forever fuel : forall vis k,
+  cmarch FOps cg_ring (mkV 1 0 0) (mkV 1 infinity infinity) (fun c ds => lod FOps ph_centre vacuum_cell ds) fuel (ring_state vis k) = None.
+Proof.
+  induction fuel; intros vis k.
+  - reflexivity.
+  - rewrite cmarch_S. unfold ring_state at 1 2 3 4 5 6. cbn [cs_idx cs_pos cs_tau cs_vis cs_last cs_ncell].
+    assert (W : cwrap FOps cg_ring (mkI 1 0 0) (mkV 1 0.5 0.5) = (true, mkI 0 0 0, mkV 0 0.5 0.5)) by (vm_compute; reflexivity).
+    rewrite W. change (o_ltb FOps (o_zero FOps) 1) with true. cbn [andb].
+    assert (B : cbody FOps cg_ring (mkV 1 0 0) (mkV 1 infinity infinity) (fun c ds => lod FOps ph_centre vacuum_cell ds)
+                  (mkCS (mkV 0 0.5 0.5) (mkI 0 0 0) 1 vis (Some 0%Z) k) = ring_state ((0%Z, 1) :: vis) (k + 1)).
+    { unfold cbody. cbn [cs_idx cs_pos cs_tau cs_vis cs_last cs_ncell].
+      set (l := cwalls FOps cg_ring (mkV 1 0 0) (mkV 1 infinity infinity) (mkCS (mkV 0 0.5 0.5) (mkI 0 0 0) 1 vis (Some 0%Z) k)).
+      assert (El : l = mkV 1 0x1.fffffffffffffp+1023 0x1.fffffffffffffp+1023) by (vm_compute; reflexivity). rewrite El.
+      assert (Em : lmin_of FOps (mkV 1 0x1.fffffffffffffp+1023 0x1.fffffffffffffp+1023) = 1) by (vm_compute; reflexivity). rewrite Em.
+      assert (Ec : clong cg_ring (mkI 0 0 0) = 0%Z) by (vm_compute; reflexivity). rewrite Ec.
+      assert (Et : lod FOps ph_centre vacuum_cell 1 = 0) by (vm_compute; reflexivity). rewrite Et.
+      assert (Es : o_sub FOps 1 0 = 1) by (vm_compute; reflexivity). rewrite Es.
+      change (o_ltb FOps 1 (o_zero FOps)) with false. cbn iota.
+      assert (Ep : vplus FOps (mkV 0 0.5 0.5) (vscale FOps (mkV 1 0 0) 1) = mkV 1 0.5 0.5) by (vm_compute; reflexivity). rewrite Ep.
+      unfold ring_state. f_equal. }
+    rewrite B. apply IHfuel.
+Qed.
+
+Lemma cart_periodic_vacuum_never_ends_thm : forall fuel,
+  f_cart_interact fuel cg_ring (fun _ => vacuum_cell) ph_centre 1 = CErrFuel.
+Proof.
+  intros fuel. unfold f_cart_interact, cart_interact.
+  change (lp_dir ph_centre) with (mkV 1 0 0).
+  assert (Ei : mkV (o_div FOps (o_one FOps) (vx (mkV 1 0 0))) (o_div FOps (o_one FOps) (vy (mkV 1 0 0))) (o_div FOps (o_one FOps) (vz (mkV 1 0 0)))
+               = mkV 1 infinity infinity) by (vm_compute; reflexivity).
+  rewrite Ei.
+  assert (E0 : cell_indices FOps cg_ring (lp_pos ph_centre) = mkI 0 0 0) by (vm_compute; reflexivity). rewrite E0.
+  destruct fuel as [|fuel]. reflexivity.
+  rewrite cmarch_S. cbn [cs_idx cs_pos cs_tau cs_vis cs_last cs_ncell].
+  assert (W : cwrap FOps cg_ring (mkI 0 0 0) (lp_pos ph_centre) = (true, mkI 0 0 0, mkV 0.5 0.5 0.5)) by (vm_compute; reflexivity).
+  rewrite W. change (o_ltb FOps (o_zero FOps) 1) with true. cbn [andb].
+  assert (B : cbody FOps cg_ring (mkV 1 0 0) (mkV 1 infinity infinity) (fun c ds => lod FOps ph_centre vacuum_cell ds)
+                (mkCS (mkV 0.5 0.5 0.5) (mkI 0 0 0) 1 [] None 0) = ring_state [(0%Z, 0.5)] 1) by (vm_compute; reflexivity).
+  rewrite B. rewrite cart_ring_forever. reflexivity.
+Qed.
